@@ -34,7 +34,10 @@ def run_property(pid, prog, cg, tier, shared=None, out=print, write=True):
         mod.thorough(ctx)
     if tier == "thorough":
         from selftest import harness
+        from . import thorough
+        thorough.package_lints(ctx)
         harness.run_for_property(ctx, out=out)
+        thorough.transforms_for(ctx, out=out)
     return emit(ctx, time.time() - t0, getattr(mod, "LEVEL_TEXT", mod.__doc__ or ""), out=out, write=write), ctx
 
 
